@@ -193,7 +193,8 @@ MAX_TASK_CPU_S = float(os.environ.get("PYVC_MAX_TASK_CPU_S", "2400"))
 def run_property(prop, tier="quick", workers=None, extra=None):
     t0 = time.time()
     seed = int(os.environ.get("VERIF_SEED", "0") or 0)
-    timeout_ms = 20000 if tier == "quick" else 120000
+    # wall-clock budgets per obligation; generous, because verdicts must not flip when the machine is busy
+    timeout_ms = 60000 if tier == "quick" else 180000
     tasks = tasks_for(prop, tier)
     workers = workers or min(16, os.cpu_count() or 4)
     results = []
